@@ -57,7 +57,7 @@ def run(tier, seed):
         # `use all` / `use prelude` / `use units::currencies` itself fails: no example can run
         rep.violation({"kind": "example-session-does-not-load", "stderr": p.stderr[-1500:]})
         return rep.finish()
-    rows = nv.read_ndjson_text(open(out).read())
+    rows = nv.read_ndjson_text(open(out, encoding="utf-8").read())
     start, exs, end = rows[0], rows[1:-1], rows[-1]
     rep.set("functions", start["functions"])
     rep.set("functions_with_examples", start["functions_with_examples"])
